@@ -394,4 +394,49 @@ example : interpOne ([0, 1, 2] : List ℚ) [0, 10, 20] .panic (1 / 2) = some 5 :
 example : interpChecked ([0, 2, 1] : List ℚ) [0, 10, 20] [1] .extrapolate = none :=
   checked_rejects_unsorted _ _ _ _ ⟨1, by decide, by decide⟩
 
+-- every remaining implication, instantiated on the same data (all hypotheses discharged)
+example : min ([0, 10, 20] : List ℚ)[0]! [0, 10, 20][1]! ≤ lineAt ([0, 1, 2] : List ℚ) [0, 10, 20] 1 (1 / 2) ∧
+    lineAt ([0, 1, 2] : List ℚ) [0, 10, 20] 1 (1 / 2) ≤ max ([0, 10, 20] : List ℚ)[0]! [0, 10, 20][1]! :=
+  lineAt_between knots_example (1 / 2) 1 (by decide) (by decide) (by decide +kernel) (by decide +kernel)
+example : interpOne ([0, 1, 2] : List ℚ) [0, 10, 20] .panic (-1) = none :=
+  interp_left_panic knots_example (-1) (by decide)
+example : interpOne ([0, 1, 2] : List ℚ) [0, 10, 20] (.fill 7 8) (-1) = some 7 :=
+  interp_left_fill knots_example 7 8 (-1) (by decide)
+example : interpOne ([0, 1, 2] : List ℚ) [0, 10, 20] .extrapolate (-1) = some (-10) := by
+  rw [interp_left_extrapolate knots_example (-1) (by decide)]; decide +kernel
+example : interpOne ([0, 1, 2] : List ℚ) [0, 10, 20] .panic 0 = some 0 :=
+  interp_knot knots_example .panic 0 (by decide)
+example : interpOne ([0, 1, 2] : List ℚ) [0, 10, 20] (.fill 7 8) 2 = some 20 :=
+  interp_knot knots_example (.fill 7 8) 2 (by decide)
+example : interpChecked ([0, 1, 2] : List ℚ) [0, 10, 20] [1 / 2, 3] .panic = none :=
+  panic_mode_rejects knots_example [1 / 2, 3] 3 (by simp) (Or.inr (by decide))
+example : ∃ vs, interpChecked ([0, 1, 2] : List ℚ) [0, 10, 20] [-1, 1 / 2, 3] (.fill 7 8) = some vs ∧ vs.length = 3 := by
+  obtain ⟨vs, h1, h2, _⟩ := checked_total knots_example (.fill (7 : ℚ) 8) [-1, 1 / 2, 3] (Or.inl (by simp))
+  exact ⟨vs, h1, h2⟩
+example : ∃ vs, interpChecked ([0, 1, 2] : List ℚ) [0, 10, 20] [0, 1 / 2, 2] .panic = some vs ∧ vs.length = 3 := by
+  obtain ⟨vs, h1, h2, _⟩ := checked_total knots_example .panic [0, 1 / 2, 2] (Or.inr (by
+    intro t ht; simp at ht; rcases ht with rfl | rfl | rfl <;> constructor <;> decide +kernel))
+  exact ⟨vs, h1, h2⟩
+example : (interpChecked ([0, 1, 2] : List ℚ) [0, 10] [1] .extrapolate = none) ∧
+    (interpUnchecked ([0, 1, 2] : List ℚ) [0, 10] [1] .extrapolate = none) :=
+  checked_rejects_length _ _ _ _ (by decide)
+example : interpChecked ([0, 1, 2] : List ℚ) [0, 10, 20] [1, 5] .extrapolate
+    = interpUnchecked ([0, 1, 2] : List ℚ) [0, 10, 20] [1, 5] .extrapolate :=
+  checked_eq_unchecked knots_example _ _
+
+/-! ### Duplicate abscissae
+
+The checked variant rejects a DESCENDING step only (`x[i+1] - x[i] < 0`): equal neighbouring abscissae pass the test
+(`sortedOk_iff` is stated with `≤`), although they are outside `Knots` (strictly increasing) and hence outside every
+theorem above; the code then divides by a zero width in the segment between them.  The property text says
+"unsorted", so this is the specified behaviour; it is recorded here and compared with the model only. -/
+
+/-- Non-strictly increasing abscissae are accepted by the sortedness test. -/
+theorem sortedOk_of_nondecreasing {α : Type} [Field α] [LinearOrder α] [IsStrictOrderedRing α] [Inhabited α]
+    (x : List α) (h : ∀ i (hi : i + 1 < x.length), x[i] ≤ x[i + 1]) : sortedOk x = true :=
+  (sortedOk_iff x).2 h
+
+/-- witness: `[0,1,1,2]` is accepted and the tie at 1 yields the ordinate of the LATER of the two equal knots -/
+example : interpChecked ([0, 1, 1, 2] : List ℚ) [0, 10, 20, 30] [1] .extrapolate = some [20] := by decide +kernel
+
 end Cv.C16
